@@ -1,15 +1,16 @@
 // C13 correspondence harness: one data set, one parameter list, the embedding computed through every call form.
-// in : forms N=12 D=3 seed=5 kw=method:meth:Isomap,num_neighbors:int:6
+// in : forms N=12 D=3 seed=5 [off=67108864] kw=method:meth:Isomap,num_neighbors:int:6
 // out: <form>=ok:<rows>x<cols>:<v>,<v>,...   |  <form>=throw:<class>      (values as exact dyadics, row-major)
 //   -DPART=1  (eigen_kernel_callback, eigen_distance_callback, eigen_features_callback over std::vector<int>):
 //             matrix   with(kw).embedUsing(X)
 //             kdf … fdk   with(kw).withKernel/withDistance/withFeatures in that order, .embedRange(begin, end)
 //             using    … .embedUsing(container)        direct   tapkee::embed(begin, end, k, d, f, kw)
+//             matrixrev embedUsing(X with reversed columns)   rangerev  embedRange over the indices N-1..0 into X
 //   -DPART=2  precomputed_kernel_callback / precomputed_distance_callback (+ eigen features):
 //             pre      matrices filled with the values the eigen callbacks return
 //             pregram  kernel matrix = X^T X by a matrix product, distances from it (Gram-level comparison only)
 //   -DPART=3  obj      a std::vector of non-index objects (name + own copy of the vector) with hand-written callbacks;
-//             cbeq=1 iff those callbacks return bit-identical doubles to the eigen callbacks on every pair
+//             cbeq_k / cbeq_d = 1 iff those (textbook) callbacks return bit-identical doubles to the eigen callbacks on every pair
 // Before every form: std::srand(seed), verif_shuffle_generator().seed(seed).  Built without -fopenmp (summation
 // order must not depend on scheduling; thread-count independence is property C15).
 #include <tapkee/tapkee.hpp>
@@ -83,18 +84,28 @@ struct Obj
     std::string name;
     DenseVector x;
 };
+// hand-written callbacks on objects: the textbook formulas, written out
 struct obj_kernel
 {
     ScalarType kernel(const Obj& a, const Obj& b) const
     {
-        return a.x.dot(b.x);
+        ScalarType s = 0.0;
+        for (IndexType r = 0; r < a.x.size(); ++r)
+            s += a.x(r) * b.x(r);
+        return s;
     }
 };
 struct obj_distance
 {
     ScalarType distance(const Obj& a, const Obj& b) const
     {
-        return (a.x - b.x).norm();
+        ScalarType s = 0.0;
+        for (IndexType r = 0; r < a.x.size(); ++r)
+        {
+            ScalarType diff = a.x(r) - b.x(r);
+            s += diff * diff;
+        }
+        return std::sqrt(s);
     }
 };
 struct obj_features
@@ -128,13 +139,14 @@ int main()
         int N = std::stoi(f["N"]);
         int D = std::stoi(f["D"]);
         unsigned seed = static_cast<unsigned>(std::stoul(f["seed"]));
+        const double off = f.count("off") ? vh::parse_num(f["off"]) : 0.0; // common offset of all coordinates
         DenseMatrix X(D, N);
         unsigned s = seed * 2654435761u + 12345u;
         for (int j = 0; j < N; j++)
             for (int i = 0; i < D; i++)
             {
                 s = s * 1103515245u + 12345u;
-                X(i, j) = (static_cast<double>((s >> 16) % 1024) - 512.0) / 8.0;
+                X(i, j) = off + (static_cast<double>((s >> 16) % 1024) - 512.0) / 8.0;
             }
         std::vector<IndexType> idx(N);
         for (int i = 0; i < N; i++)
@@ -154,6 +166,17 @@ int main()
         o << " fdk=" << run_form(seed, [&] { return tapkee::with(vfront::make_set(kw)).withFeatures(ef).withDistance(ed).withKernel(ek).embedRange(idx.begin(), idx.end()); });
         o << " using=" << run_form(seed, [&] { return tapkee::with(vfront::make_set(kw)).withKernel(ek).withDistance(ed).withFeatures(ef).embedUsing(idx); });
         o << " direct=" << run_form(seed, [&] { return tapkee::embed(idx.begin(), idx.end(), ek, ed, ef, vfront::make_set(kw)); });
+        // a range that is not the identity map: the samples in reverse order, as a range of indices into X and as
+        // the matrix with reversed columns - the same callback values at the same positions, hence the same result
+        std::vector<IndexType> rev(N);
+        DenseMatrix Xrev(D, N);
+        for (int i = 0; i < N; i++)
+        {
+            rev[i] = N - 1 - i;
+            Xrev.col(i) = X.col(N - 1 - i);
+        }
+        o << " matrixrev=" << run_form(seed, [&] { return tapkee::with(vfront::make_set(kw)).embedUsing(Xrev); });
+        o << " rangerev=" << run_form(seed, [&] { return tapkee::with(vfront::make_set(kw)).withKernel(ek).withDistance(ed).withFeatures(ef).embedRange(rev.begin(), rev.end()); });
 #elif PART == 2
         DenseMatrix Kp(N, N), Dp(N, N);
         for (int i = 0; i < N; i++)
@@ -182,15 +205,16 @@ int main()
         obj_kernel okc;
         obj_distance odc;
         obj_features ofc{static_cast<IndexType>(D)};
-        bool same = true;
+        bool same_k = true, same_d = true;
         for (int i = 0; i < N; i++)
             for (int j = 0; j < N; j++)
             {
                 double a = okc.kernel(objs[i], objs[j]), b = ek.kernel(i, j);
                 double c = odc.distance(objs[i], objs[j]), d = ed.distance(i, j);
-                same = same && std::memcmp(&a, &b, sizeof a) == 0 && std::memcmp(&c, &d, sizeof c) == 0;
+                same_k = same_k && std::memcmp(&a, &b, sizeof a) == 0;
+                same_d = same_d && std::memcmp(&c, &d, sizeof c) == 0;
             }
-        o << "cbeq=" << (same ? 1 : 0);
+        o << "cbeq_k=" << (same_k ? 1 : 0) << " cbeq_d=" << (same_d ? 1 : 0);
         o << " obj=" << run_form(seed, [&] { return tapkee::with(vfront::make_set(kw)).withFeatures(ofc).withDistance(odc).withKernel(okc).embedRange(objs.begin(), objs.end()); });
         o << " objusing=" << run_form(seed, [&] { return tapkee::with(vfront::make_set(kw)).withKernel(okc).withDistance(odc).withFeatures(ofc).embedUsing(objs); });
 #endif
